@@ -170,7 +170,7 @@ def main(tier, seed, workers=None):
                 seen.add(p)
                 yield p
 
-    explore(run, progs(), run_case, workers, chunk=128)
+    explore(run, progs(), run_case, workers, chunk=128, reversed_pass=(tier == "thorough"))
     return run.finish(lambda case: [v[0] for v in run_case(case)["viol"]])
 
 
